@@ -165,3 +165,25 @@ func vFmtArg(k int) uint64 { panic(vSkip{"vFmtArg has no native counterpart"}) }
 // natively the two threads run one after the other (interleavings cannot be forced)
 func vPar(f, g func()) { f(); g() }
 func vNoBlock(on bool) {}
+
+// vFmtInt: the k-th (from 1) decimal integer in a formatted string
+func vFmtInt(k int, s string) uint64 {
+	n := 0
+	i := 0
+	for i < len(s) {
+		if s[i] >= '0' && s[i] <= '9' {
+			var v uint64
+			for i < len(s) && s[i] >= '0' && s[i] <= '9' {
+				v = v*10 + uint64(s[i]-'0')
+				i++
+			}
+			n++
+			if n == k {
+				return v
+			}
+			continue
+		}
+		i++
+	}
+	panic(vSkip{"vFmtInt: no such integer"})
+}
